@@ -510,6 +510,11 @@ pub fn eval_unit_name(
                 }
                 let right = right.value.to_f64();
                 let (left_unit, left_value) = eval_unit_name(ctx, &binop.left)?;
+                if (right as i32) < 0
+                    && (left_value == Numeric::zero() || left_value == Numeric::Float(0.0))
+                {
+                    return Err(QueryError::generic("Division by zero".to_string()));
+                }
                 Ok((
                     left_unit
                         .into_iter()
@@ -525,8 +530,24 @@ pub fn eval_unit_name(
                     left_value.pow(right as i32),
                 ))
             }
-            BinOpType::ShiftL => todo!(),
-            BinOpType::ShiftR => todo!(),
+            BinOpType::ShiftL | BinOpType::ShiftR => {
+                let (left_unit, left) = eval_unit_name(ctx, &binop.left)?;
+                let (right_unit, right) = eval_unit_name(ctx, &binop.right)?;
+
+                if !right_unit.is_empty() {
+                    return Err(QueryError::generic(
+                        "Right-hand side of a shift must be dimensionless".to_string(),
+                    ));
+                }
+                let (left, right) = (Number::new(left), Number::new(right));
+                let value = if binop.op == BinOpType::ShiftL {
+                    left.shl(&right)
+                } else {
+                    left.shr(&right)
+                }
+                .map_err(QueryError::generic)?;
+                Ok((left_unit, value.value))
+            }
             BinOpType::Mod => {
                 let (left_unit, left) = eval_unit_name(ctx, &binop.left)?;
                 let (right_unit, right) = eval_unit_name(ctx, &binop.right)?;
